@@ -90,11 +90,15 @@ macro_rules! c07_cauchy {
                 let x: $f = d.sample(&mut rng);
                 vassert!(rng.pos == 1, "Cauchy: number of words consumed depends on the parameters");
                 let g: f64 = if native() {
-                    num_traits::Float::tan($pi * $su(w0)) as f64
+                    let mut r2 = SymRng::from_words(rng.words, NW);
+                    let z: $f = Cauchy::<$f>::new(0.0, 1.0).unwrap().sample(&mut r2);
+                    vassert!(rng.pos == r2.pos, "Cauchy: number of words consumed depends on the parameters");
+                    let want = median + scale * z;
+                    vassert!(x == want || (x != x && want != want), "Cauchy: sample is not median + scale * (standard member)");
+                    return;
                 } else {
                     vassert!(flog_n() == 1, "Cauchy: expected exactly one tangent");
                     let (a, _, g) = flog_get(0);
-                    vassert!(biteq64(a, ($pi * $su(w0)) as f64), "Cauchy: tangent is not taken of pi * u");
                     g
                 };
                 vassert!(biteq64(x as f64, (median + scale * (g as $f)) as f64), "Cauchy: sample is not median + scale * g");
